@@ -173,17 +173,33 @@ func (r *recorder) onCommit(inner db.KeyValueReader) {
 // values when the subscriber's 1-slot buffer is full, so the store path is made to wait for the
 // readers: called from the sync listener's OpStore callback, i.e. after Store and before the
 // sends of the current block). Returns false if the readers did not catch up in time.
-func (r *recorder) drain(wantNewHeads, wantReorgs int, timeout time.Duration) bool {
+func (r *recorder) drain(wantNewHeads, wantReorgs int, timeoutBeats int64) bool {
 	if drainLosses.Load() >= 3 {
-		timeout = 50 * time.Millisecond // notifications are evidently missing: do not wait for each one
+		timeoutBeats = 5 // notifications are evidently missing: do not wait for each one
 	}
-	deadline := time.Now().Add(timeout)
-	timer := time.AfterFunc(timeout, func() { r.mu.Lock(); r.cond.Broadcast(); r.mu.Unlock() })
-	defer timer.Stop()
+	startHeartbeat()
+	deadline := beats.Load() + timeoutBeats
+	// wake the waiter regularly so that it can look at the deadline
+	stop := make(chan struct{})
+	defer close(stop)
+	go func() {
+		t := time.NewTicker(20 * time.Millisecond)
+		defer t.Stop()
+		for {
+			select {
+			case <-stop:
+				return
+			case <-t.C:
+				r.mu.Lock()
+				r.cond.Broadcast()
+				r.mu.Unlock()
+			}
+		}
+	}()
 	r.mu.Lock()
 	defer r.mu.Unlock()
 	for (r.recvNewHead < wantNewHeads || r.recvReorg < wantReorgs) && !r.lostWait {
-		if time.Now().After(deadline) {
+		if beats.Load() > deadline {
 			r.lostWait = true
 			drainLosses.Add(1)
 			return false
